@@ -11,7 +11,8 @@ from .execu import Obligation
 from . import replay as RP
 from . import source
 
-CONTRACT_MODULES = ['contracts.game_game', 'contracts.sections', 'contracts.p8text', 'contracts.p8png', 'contracts.p8scii', 'contracts.compress']
+CONTRACT_MODULES = ['contracts.game_game', 'contracts.sections', 'contracts.p8text', 'contracts.p8png', 'contracts.p8scii', 'contracts.compress',
+                    'contracts.names']
 
 
 def registry(mods=None):
